@@ -7,6 +7,7 @@ import typing as t
 
 from sa.flow import ReachingDefs
 from sa.load import AnalysisError, Func, Repo, body_nodes, unparse
+from sa.pathsum import Summary
 from sa.report import Check, Site
 
 
@@ -37,62 +38,51 @@ def expect(chk: Check, rule: str, f: Func, call: t.Optional[ast.Call], got: t.Di
     chk.ob(rule, site, not bad, f"{what}: " + ", ".join(f"{k}={v}" for k, v in want.items()) if not bad else f"{what}: " + "; ".join(f"{k} is {g!r}, the construction needs {w!r}" for k, (g, w) in bad.items()))
 
 
+H = "KDFParameters.unpack(self.kdf_parameters).hash_algorithm"
+UTF16 = lambda txt: repr(txt) + ".encode('utf-16-le')"  # noqa: E731
+KEK_CONTEXT = "'KDS public key\\x00'.encode('utf-16-le')"
+BIG = "int.from_bytes(private_key, byteorder='big')"
+
+
 def run(repo: Repo, chk: Check) -> None:
     chk.scope_decides = (
-        "that both sides are one computation on dual inputs: O1 nonce mode - the kdf calls of new_kek and get_kek have pairwise equal arguments "
-        "(hash from the envelope's KDF parameters, L2 key, label, the key_info nonce, 32 bytes); O2 public-key mode - both sides reach "
+        "that both sides are one computation on dual inputs, decided on path summaries (each control-flow path of the functions composed "
+        "symbolically over their inputs): O1 nonce mode - on the non-public-key paths new_kek and get_kek call kdf with pairwise equal arguments "
+        "(hash from the envelope's KDF parameters, L2 key, label, the key_info nonce, 32 bytes) and return that result; O2 public-key mode - both sides reach "
         "compute_kek with the same algorithm/secret parameters, the decrypt side derives the private key with ceil(private_key_length/8) bytes, "
         "the same expression the encrypt side draws, and the recipe of compute_kek (DH pow / ECDH exchange with the unreduced private key, "
-        "SP800-56A concat KDF with SHA256|curve hash and the fixed UTF-16 otherinfo, final SP800-108 KDF) is as specified; O3 every group "
-        "element / coordinate / shared secret is packed big-endian at the structure's key_length, never at a width derived from the value."
+        "SP800-56A concat KDF with SHA256|curve hash and the fixed UTF-16 otherinfo, final SP800-108 KDF) is as specified, with every value "
+        "being the result of the preceding step (no cached or alternative value); O3 every group element / coordinate / shared secret is "
+        "packed big-endian at the structure's key_length, never at a width derived from the value."
     )
     chk.scope_not = "equality of the derived bytes with an independent implementation (numerical)."
     chk.trusted = ["cryptography's KBKDFHMAC, ConcatKDFHash, ECDH; Python pow(); the recipe transcribed from MS-GKDI 3.1.4.1.2 / observed BCrypt usage"]
-    gkdi = repo.mod("_gkdi")
-    kdf = repo.func("_crypto.kdf")
     new_kek = repo.method("_gkdi.GroupKeyEnvelope", "new_kek")
     get_kek = repo.method("_gkdi.GroupKeyEnvelope", "get_kek")
     chk.analysed(new_kek, get_kek)
-    # ---------------------------------------------------------------- O1 nonce mode
-    kn, kg = calls(new_kek, "kdf"), calls(get_kek, "kdf")
-    if len(kn) != 1 or len(kg) != 1:
-        raise AnalysisError("nonce-mode kdf call sites changed")
-    H = "KDFParameters.unpack(self.kdf_parameters).hash_algorithm"
-    L2 = "compute_l2_key(KDFParameters.unpack(self.kdf_parameters).hash_algorithm, key_id.l1, key_id.l2, self)"
-    rdn0, rdg0 = ReachingDefs(new_kek), ReachingDefs(get_kek)
-    expect(chk, "O1", new_kek, kn[0], argmap(repo, kn[0], kdf, rdn0), {"algorithm": H, "secret": "self.l2_key", "label": "KDS_SERVICE_LABEL", "context": "os.urandom(32)", "length": "32"}, "encrypt side KEK = KDF(hash of the envelope's KDF parameters, L2 key, label, fresh nonce, 32)")
-    expect(chk, "O1", get_kek, kg[0], argmap(repo, kg[0], kdf, rdg0), {"algorithm": H, "secret": L2, "label": "KDS_SERVICE_LABEL", "context": "key_id.key_info", "length": "32"}, "decrypt side KEK = KDF(same hash, L2 key of the blob's position, label, stored nonce, 32)")
-    for f in (new_kek, get_kek):
-        guard = [n for n in body_nodes(f.node) if isinstance(n, ast.If) and unparse(n.test) == "self.kdf_algorithm != 'SP800_108_CTR_HMAC'" and any(isinstance(x, ast.Raise) for x in n.body)]
-        chk.ob("O1", Site.of(f, construct=f"{f.name}: KDF algorithm check"), bool(guard), "only SP800_108_CTR_HMAC is accepted")
-    # mode switch on the right flags
-    ifn = [n for n in body_nodes(new_kek.node) if isinstance(n, ast.If) and unparse(n.test) == "self.is_public_key"]
-    ifg = [n for n in body_nodes(get_kek.node) if isinstance(n, ast.If) and unparse(n.test) == "key_id.is_public_key"]
-    chk.ob("O2", Site.of(new_kek, ifn[0] if ifn else None, None if ifn else "mode switch"), len(ifn) == 1 and any(x is kn[0] for x in ast.walk(ast.Module(body=ifn[0].orelse, type_ignores=[]))), "encrypt side: public-key mode iff the envelope carries a public key")
-    chk.ob("O2", Site.of(get_kek, ifg[0] if ifg else None, None if ifg else "mode switch"), len(ifg) == 1 and any(x is kg[0] for x in ast.walk(ast.Module(body=ifg[0].orelse, type_ignores=[]))), "decrypt side: public-key mode iff the blob's key identifier says so")
-    # ---------------------------------------------------------------- O2 public-key mode
+    kek_sides(repo, chk, new_kek, get_kek)
     ck = repo.func("_gkdi.compute_kek")
     ckp = repo.func("_gkdi.compute_kek_from_public_key")
     cpk = repo.func("_gkdi.compute_public_key")
     chk.analysed(ck, ckp, cpk)
-    c_new = calls(new_kek, "compute_kek")
-    c_get = calls(get_kek, "compute_kek_from_public_key")
-    if len(c_new) != 1 or len(c_get) != 1:
-        raise AnalysisError("public-key mode call sites changed")
-    expect(chk, "O2", new_kek, c_new[0], argmap(repo, c_new[0], ck, rdn0), {"algorithm": H, "secret_algorithm": "self.secret_algorithm", "secret_parameters": "self.secret_parameters", "private_key": "os.urandom(math.ceil(self.private_key_length / 8))", "public_key": "self.l2_key"}, "encrypt side compute_kek with ceil(private_key_length / 8) fresh bytes")
-    expect(chk, "O2", get_kek, c_get[0], argmap(repo, c_get[0], ckp, rdg0), {"algorithm": H, "seed": L2, "secret_algorithm": "self.secret_algorithm", "secret_parameters": "self.secret_parameters", "public_key": "key_id.key_info", "private_key_length": "math.ceil(self.private_key_length / 8)"}, "decrypt side compute_kek_from_public_key with the same private key length")
-    # compute_kek_from_public_key: private key = KDF(hash, L2 seed, label, secret_algorithm||0, n); then compute_kek
-    kk = calls(ckp, "kdf")
-    cc = calls(ckp, "compute_kek")
-    if len(kk) != 1 or len(cc) != 1:
-        raise AnalysisError("compute_kek_from_public_key changed")
-    expect(chk, "O2", ckp, kk[0], argmap(repo, kk[0], kdf), {"algorithm": "algorithm", "secret": "seed", "label": "KDS_SERVICE_LABEL", "context": "(secret_algorithm + '\\x00').encode('utf-16-le')", "length": "private_key_length"}, "private key = KDF(hash, L2 key, label, algorithm name, length)")
-    expect(chk, "O2", ckp, cc[0], argmap(repo, cc[0], ck, ReachingDefs(ckp)), {"algorithm": "algorithm", "secret_algorithm": "secret_algorithm", "secret_parameters": "secret_parameters", "private_key": "kdf(algorithm, seed, KDS_SERVICE_LABEL, (secret_algorithm + '\\x00').encode('utf-16-le'), private_key_length)", "public_key": "public_key"}, "then the same compute_kek as the encrypt side, keyed with the derived private key")
-    rets = [n for n in body_nodes(ckp.node) if isinstance(n, ast.Return)]
-    chk.ob("O2", Site.of(ckp, rets[0] if rets else None, None if rets else "return"), len(rets) == 1 and rets[0].value is cc[0], "returns that KEK")
+    sp = Summary(ckp, ["algorithm", "seed", "secret_algorithm", "secret_parameters", "public_key", "private_key_length"])
+    if not sp.returning():
+        raise AnalysisError("compute_kek_from_public_key: no returning path")
+    for ps in sp.returning():
+        run_recipe(repo, chk, "O2", ckp, ps, [
+            S("D", "kdf", {"algorithm": "algorithm", "secret": "seed", "label": "KDS_SERVICE_LABEL", "context": "(secret_algorithm + '\\x00').encode('utf-16-le')", "length": "private_key_length"}, why="private key = KDF(hash, L2 key, label, algorithm name, length)"),
+            S("K", "compute_kek", {"algorithm": "algorithm", "secret_algorithm": "secret_algorithm", "secret_parameters": "secret_parameters", "private_key": "D", "public_key": "public_key"}, why="the same compute_kek as the encrypt side, keyed with the derived private key"),
+        ], "compute_kek_from_public_key", ret="K")
     compute_kek_recipe(repo, chk, ck)
     compute_public_key(repo, chk, cpk)
     kdf_concat(repo, chk)
+    okf, lab = repo.try_fold(ast.Name(id="KDS_SERVICE_LABEL", ctx=ast.Load()), ck.mod)
+    chk.ob("O2", Site(ck.file, "_gkdi module", 0, "KDS_SERVICE_LABEL"), okf and lab == "KDS service\0".encode("utf-16-le"), "label = 'KDS service' UTF-16 with terminator")
+    cah = repo.method("_gkdi.ECDHKey", "curve_and_hash")
+    tab = [n for n in body_nodes(cah.node) if isinstance(n, ast.Dict)]
+    want_tab = {"'P256'": "(ec.SECP256R1(), hashes.SHA256())", "'P384'": "(ec.SECP384R1(), hashes.SHA384())", "'P521'": "(ec.SECP521R1(), hashes.SHA512())"}
+    got_tab = {unparse(k): unparse(v) for k, v in zip(tab[0].keys, tab[0].values)} if tab else {}
+    chk.ob("O2", Site.of(cah, tab[0] if tab else None, None if tab else "curve table"), got_tab == want_tab, "P256/SHA256, P384/SHA384, P521/SHA512" if got_tab == want_tab else f"curve table is {got_tab}")
     # ---------------------------------------------------------------- O3 fixed width (layout tables)
     from . import codecs
     from .c11 import reference
@@ -108,114 +98,134 @@ def run(repo: Repo, chk: Check) -> None:
             key = _cond_key(p.conds)
             d = first_difference(sigs_of(p.segs), ref[q].get(key, []))
             chk.ob("O3", Site.of(cls.methods["pack"], construct=f"{cls.name}.pack fixed-width big-endian integers"), d is None, "every integer is written big-endian at key_length bytes (leading zeros kept)" if d is None else d)
-    del gkdi
+
+
+def kek_sides(repo: Repo, chk: Check, new_kek: Func, get_kek: Func) -> None:
+    L2 = S("L2", "compute_l2_key", {"algorithm": H, "request_l1": "key_id.l1", "request_l2": "key_id.l2", "rk": "self"}, why="L2 key of the blob's position")
+    sn = Summary(new_kek, ["self"])
+    sg = Summary(get_kek, ["self", "key_id"])
+    modes: t.Dict[str, t.Set[str]] = {"new_kek": set(), "get_kek": set()}
+    for f, summ in ((new_kek, sn), (get_kek, sg)):
+        if not summ.returning():
+            raise AnalysisError(f"{f.qual}: no returning path")
+        for ps in summ.returning():
+            okk = ps.eq_consts(repo).get("self.kdf_algorithm") == "SP800_108_CTR_HMAC"
+            chk.ob("O1", Site.of(f, ps.exit_node, f"{f.name}: KDF algorithm check"), okk, "only SP800_108_CTR_HMAC is accepted")
+            facts = ps.facts()
+            switch = "self.is_public_key" if f is new_kek else "key_id.is_public_key"
+            pub, non = switch in facts, f"not ({switch})" in facts
+            if pub == non:
+                chk.ob("O2", Site.of(f, ps.exit_node, "mode switch"), False, f"a returning path of {f.name} does not decide {switch}: the derivation is not selected by the public-key flag")
+                continue
+            modes[f.name].add("public" if pub else "nonce")
+            if f is new_kek and non:
+                names = run_recipe(repo, chk, "O1", f, ps, [
+                    S("N", "urandom", {"#0": "32"}, params=[], why="fresh 32 byte nonce"),
+                    S("K", "kdf", {"algorithm": H, "secret": "self.l2_key", "label": "KDS_SERVICE_LABEL", "context": "N", "length": "32"}, why="encrypt side KEK = KDF(hash of the envelope's KDF parameters, L2 key, label, fresh nonce, 32)"),
+                    S("I", "KeyIdentifier", {"key_info": "N"}, why="the nonce that keyed the KDF is the one stored"),
+                ], "encrypt side, nonce mode", ret="(K, I)")
+            elif f is new_kek:
+                run_recipe(repo, chk, "O2", f, ps, [
+                    S("X", "urandom", {"#0": "math.ceil(self.private_key_length / 8)"}, params=[], why="ceil(private_key_length / 8) fresh bytes"),
+                    S("K", "compute_kek", {"algorithm": H, "secret_algorithm": "self.secret_algorithm", "secret_parameters": "self.secret_parameters", "private_key": "X", "public_key": "self.l2_key"}, why="encrypt side compute_kek with the ephemeral private key against the peer key in l2_key"),
+                    S("P", "compute_public_key", {"secret_algorithm": "self.secret_algorithm", "secret_parameters": "self.secret_parameters", "private_key": "X", "peer_public_key": "self.l2_key"}, why="the public key of the same ephemeral private key is what the blob carries"),
+                    S("I", "KeyIdentifier", {"key_info": "P"}),
+                ], "encrypt side, public-key mode", ret="(K, I)")
+            elif non:
+                run_recipe(repo, chk, "O1", f, ps, [
+                    L2,
+                    S("K", "kdf", {"algorithm": H, "secret": "L2", "label": "KDS_SERVICE_LABEL", "context": "key_id.key_info", "length": "32"}, why="decrypt side KEK = KDF(same hash, L2 key of the blob's position, label, stored nonce, 32)"),
+                ], "decrypt side, nonce mode", ret="K")
+            else:
+                run_recipe(repo, chk, "O2", f, ps, [
+                    L2,
+                    S("K", "compute_kek_from_public_key", {"algorithm": H, "seed": "L2", "secret_algorithm": "self.secret_algorithm", "secret_parameters": "self.secret_parameters", "public_key": "key_id.key_info", "private_key_length": "math.ceil(self.private_key_length / 8)"}, why="decrypt side derives the private key at the same length the encrypt side draws"),
+                ], "decrypt side, public-key mode", ret="K")
+    for name, got in modes.items():
+        chk.ob("O2", Site.of(new_kek if name == "new_kek" else get_kek, construct="mode switch"), got == {"public", "nonce"}, f"{name}: nonce and public-key derivations both reachable" if got == {"public", "nonce"} else f"{name}: only {sorted(got)} reachable")
+
+
+def _algo_paths(f: Func, summ: Summary) -> t.Dict[str, t.List[t.Any]]:
+    out: t.Dict[str, t.List[t.Any]] = {"DH": [], "ECDH": [], "other": []}
+    for ps in summ.returning():
+        eqc = ps.eq_consts(None) if False else {}
+        facts = ps.facts()
+        if "'DH' == secret_algorithm" in facts:
+            out["DH"].append(ps)
+        elif "secret_algorithm.startswith('ECDH_P')" in facts:
+            out["ECDH"].append(ps)
+        else:
+            out["other"].append(ps)
+        del eqc
+    return out
 
 
 def compute_kek_recipe(repo: Repo, chk: Check, f: Func) -> None:
-    rd = ReachingDefs(f)
-    # DH branch
-    pows = calls(f, "pow")
-    ups = calls(f, "FFCDHKey.unpack")
-    if len(pows) != 1 or len(ups) != 1:
-        raise AnalysisError("compute_kek: DH branch changed")
-    key = rd.single_def("dh_pub_key", pows[0])
-    okk = key is not None and key.value is ups[0] and unparse(ups[0].args[0]) == "public_key"
-    chk.ob("O2", Site.of(f, ups[0]), okk, "peer key decoded from the public_key argument")
-    a = [unparse(x) for x in pows[0].args]
-    want = ["dh_pub_key.public_key", "int.from_bytes(private_key, byteorder='big')", "dh_pub_key.field_order"]
-    chk.ob("O2", Site.of(f, pows[0]), a == want, "shared secret = y ** x mod p with the whole big-endian private key as exponent" if a == want else f"pow arguments are {a}, the construction is {want} (the exponent must not be reduced or re-encoded: the other side and Windows use the full value)")
-    tb = [n for n in body_nodes(f.node) if isinstance(n, ast.Call) and isinstance(n.func, ast.Attribute) and n.func.attr == "to_bytes"]
-    okw = len(tb) == 1 and unparse(tb[0].func.value) == "shared_secret_int" and tb[0].args and unparse(tb[0].args[0]) == "dh_pub_key.key_length" and any(k.arg == "byteorder" and unparse(k.value) == "'big'" for k in tb[0].keywords)
-    d = rd.single_def("shared_secret_int", tb[0]) if tb else None
-    okw = okw and d is not None and d.value is pows[0]
-    chk.ob("O3", Site.of(f, tb[0] if tb else None, None if tb else "shared secret packing"), bool(okw), "shared secret packed big-endian at the key's key_length (leading zero bytes kept)" if okw else f"shared secret is packed as '{unparse(tb[0]) if tb else '?'}': a width derived from the value drops leading zero bytes and changes the KEK for 1 in 256 secrets")
-    # hash choice
-    sha = [n for n in body_nodes(f.node) if isinstance(n, ast.Assign) and unparse(n.targets[0]) == "secret_hash_algorithm"]
-    oks = len(sha) == 1 and unparse(sha[0].value) == "hashes.SHA256()"
-    chk.ob("O2", Site.of(f, sha[0] if sha else None, None if sha else "DH secret hash"), oks, "DH: SP800-56A with SHA256")
-    # branch conditions
-    ifs = [n for n in body_nodes(f.node) if isinstance(n, ast.If) and unparse(n.test) == "secret_algorithm == 'DH'"]
-    okb = len(ifs) == 1 and len(ifs[0].orelse) == 1 and isinstance(ifs[0].orelse[0], ast.If) and unparse(ifs[0].orelse[0].test) == "secret_algorithm.startswith('ECDH_P')"
-    chk.ob("O2", Site.of(f, ifs[0] if ifs else None, None if ifs else "algorithm switch"), okb, "DH / ECDH_P* / otherwise NotImplementedError")
-    # ECDH branch
-    eu = calls(f, "ECDHKey.unpack")
-    pn = calls(f, "ec.EllipticCurvePublicNumbers")
-    dp = calls(f, "ec.derive_private_key")
-    ex = calls(f, "ecdh_private.exchange")
-    ok = len(eu) == 1 and unparse(eu[0].args[0]) == "public_key" and len(pn) == 1 and [unparse(x) for x in pn[0].args] == ["ecdh_pub_key_info.x", "ecdh_pub_key_info.y", "curve"]
-    chk.ob("O2", Site.of(f, pn[0] if pn else None, None if pn else "ECDH peer key"), ok, "peer point (x, y) on the key's curve")
-    ok = len(dp) == 1 and [unparse(x) for x in dp[0].args] == ["int.from_bytes(private_key, byteorder='big')", "curve"]
-    chk.ob("O2", Site.of(f, dp[0] if dp else None, None if dp else "ECDH private key"), ok, "private scalar = whole big-endian private key" if ok else f"derive_private_key arguments are {[unparse(x) for x in dp[0].args] if dp else '?'}")
-    ok = len(ex) == 1 and [unparse(x) for x in ex[0].args] == ["ec.ECDH()", "ecdh_pub_key"]
-    chk.ob("O2", Site.of(f, ex[0] if ex else None, None if ex else "ECDH exchange"), ok, "shared secret = ECDH exchange")
-    ch = [n for n in body_nodes(f.node) if isinstance(n, ast.Assign) and unparse(n.targets[0]) == "(curve, secret_hash_algorithm)"]
-    ok = len(ch) == 1 and unparse(ch[0].value) == "ecdh_pub_key_info.curve_and_hash"
-    chk.ob("O2", Site.of(f, ch[0] if ch else None, None if ch else "curve and hash"), ok, "curve and SP800-56A hash from the key's curve")
-    cah = repo.method("_gkdi.ECDHKey", "curve_and_hash")
-    tab = [n for n in body_nodes(cah.node) if isinstance(n, ast.Dict)]
-    want_tab = {"'P256'": "(ec.SECP256R1(), hashes.SHA256())", "'P384'": "(ec.SECP384R1(), hashes.SHA384())", "'P521'": "(ec.SECP521R1(), hashes.SHA512())"}
-    got_tab = {unparse(k): unparse(v) for k, v in zip(tab[0].keys, tab[0].values)} if tab else {}
-    chk.ob("O2", Site.of(cah, tab[0] if tab else None, None if tab else "curve table"), got_tab == want_tab, "P256/SHA256, P384/SHA384, P521/SHA512" if got_tab == want_tab else f"curve table is {got_tab}")
-    # concat KDF and final KDF
-    kc = calls(f, "kdf_concat")
-    kf = calls(f, "kdf")
-    if len(kc) != 1 or len(kf) != 1:
-        raise AnalysisError("compute_kek: KDF tail changed")
-    expect(chk, "O2", f, kc[0], argmap(repo, kc[0], repo.func("_crypto.kdf_concat")), {"algorithm": "secret_hash_algorithm", "shared_secret": "shared_secret", "algorithm_id": "'SHA512\\x00'.encode('utf-16-le')", "party_uinfo": "kek_context", "party_vinfo": "KDS_SERVICE_LABEL", "length": "secret_hash_algorithm.digest_size"}, "SP800-56A concat KDF")
-    expect(chk, "O2", f, kf[0], argmap(repo, kf[0], repo.func("_crypto.kdf")), {"algorithm": "algorithm", "secret": "secret", "label": "KDS_SERVICE_LABEL", "context": "kek_context", "length": "32"}, "final SP800-108 KDF")
-    ctx = rd.single_def("kek_context", kf[0])
-    okc = ctx is not None and ctx.value is not None and unparse(ctx.value) == "'KDS public key\\x00'.encode('utf-16-le')"
-    chk.ob("O2", Site.of(f, ctx.stmt if ctx is not None else None, None if ctx is not None else "kek_context"), okc, "context = 'KDS public key' UTF-16 with terminator")
-    sd = rd.single_def("secret", kf[0])
-    chk.ob("O2", Site.of(f, kf[0]), sd is not None and sd.value is kc[0], "the concat KDF output keys the final KDF")
-    rets = [n for n in body_nodes(f.node) if isinstance(n, ast.Return)]
-    chk.ob("O2", Site.of(f, rets[0] if rets else None, None if rets else "return"), len(rets) == 1 and rets[0].value is kf[0], "returns that KEK")
-    okf, lab = repo.try_fold(ast.Name(id="KDS_SERVICE_LABEL", ctx=ast.Load()), f.mod)
-    chk.ob("O2", Site(f.file, "_gkdi module", 0, "KDS_SERVICE_LABEL"), okf and lab == "KDS service\0".encode("utf-16-le"), "label = 'KDS service' UTF-16 with terminator")
-    # both shared_secret definitions feed the concat KDF
-    ds = rd.reaching("shared_secret", kc[0])
-    chk.ob("O2", Site.of(f, kc[0]), len(ds) == 2, "DH and ECDH secrets both flow into the concat KDF")
+    summ = Summary(f, ["algorithm", "secret_algorithm", "secret_parameters", "private_key", "public_key"])
+    br = _algo_paths(f, summ)
+    chk.ob("O2", Site.of(f, construct="algorithm switch"), bool(br["DH"]) and bool(br["ECDH"]) and not br["other"] and bool(summ.raising()), "DH / ECDH_P* / otherwise NotImplementedError" if not br["other"] else "a KEK is returned for an algorithm that is neither DH nor ECDH_P*")
+    tail = [
+        S("C", "kdf_concat", {"algorithm_id": "'SHA512\\x00'.encode('utf-16-le')", "party_uinfo": KEK_CONTEXT, "party_vinfo": "KDS_SERVICE_LABEL"}, why="SP800-56A concat KDF"),
+        S("R", "kdf", {"algorithm": "algorithm", "secret": "C", "label": "KDS_SERVICE_LABEL", "context": KEK_CONTEXT, "length": "32"}, why="final SP800-108 KDF keyed with the concat KDF output"),
+    ]
+    for ps in br["DH"]:
+        names = run_recipe(repo, chk, "O2", f, ps, [
+            S("K", "FFCDHKey.unpack", {"data": "public_key"}, why="peer key decoded from the public_key argument"),
+            S("P", "pow", {"base": "K.public_key", "exp": BIG, "mod": "K.field_order"}, params=["base", "exp", "mod"], why="shared secret = y ** x mod p with the whole big-endian private key as exponent (the exponent must not be reduced or re-encoded: the other side and Windows use the full value)"),
+        ], "compute_kek DH")
+        c = ps.calls("kdf_concat")
+        if len(c) == 1:
+            a = {k: ps.short(v, names) for k, v in ev_args(repo, f, c[0]).items()}
+            okw = a.get("shared_secret") == "P.to_bytes(K.key_length, byteorder='big')"
+            chk.ob("O3", Site.of(f, c[0].node, "shared secret packing"), okw, "shared secret packed big-endian at the key's key_length (leading zero bytes kept)" if okw else f"shared secret is packed as '{a.get('shared_secret')}': a width derived from the value drops leading zero bytes and changes the KEK for 1 in 256 secrets")
+            oks = a.get("algorithm") == "hashes.SHA256()" and a.get("length") == "hashes.SHA256().digest_size"
+            chk.ob("O2", Site.of(f, c[0].node, "DH secret hash"), oks, "DH: SP800-56A with SHA256" if oks else f"DH concat KDF uses {a.get('algorithm')} / {a.get('length')}")
+        run_recipe(repo, chk, "O2", f, ps, tail, "compute_kek DH", ret="R", abbr=names)
+    for ps in br["ECDH"]:
+        names = run_recipe(repo, chk, "O2", f, ps, [
+            S("E", "ECDHKey.unpack", {"data": "public_key"}, why="peer key decoded from the public_key argument"),
+            S("N", "EllipticCurvePublicNumbers", {"x": "E.x", "y": "E.y", "curve": "E.curve_and_hash[0]"}, params=["x", "y", "curve"], why="peer point (x, y) on the key's curve"),
+            S("Q", "public_key", recv="N", why="peer public key object"),
+            S("D", "derive_private_key", {"private_value": BIG, "curve": "E.curve_and_hash[0]"}, params=["private_value", "curve"], why="private scalar = whole big-endian private key on the key's curve"),
+            S("X", "exchange", {"algorithm": "ec.ECDH()", "peer_public_key": "Q"}, params=["algorithm", "peer_public_key"], recv="D", why="shared secret = ECDH exchange"),
+        ], "compute_kek ECDH")
+        c = ps.calls("kdf_concat")
+        if len(c) == 1:
+            a = {k: ps.short(v, names) for k, v in ev_args(repo, f, c[0]).items()}
+            ok = a.get("shared_secret") == "X" and a.get("algorithm") == "E.curve_and_hash[1]" and a.get("length") == "E.curve_and_hash[1].digest_size"
+            chk.ob("O2", Site.of(f, c[0].node, "curve and hash"), ok, "ECDH: exchange output through SP800-56A with the curve's hash" if ok else f"ECDH concat KDF is fed {a}")
+        run_recipe(repo, chk, "O2", f, ps, tail, "compute_kek ECDH", ret="R", abbr=names)
 
 
 def compute_public_key(repo: Repo, chk: Check, f: Func) -> None:
-    rd = ReachingDefs(f)
-    pows = calls(f, "pow")
-    ups = calls(f, "FFCDHKey.unpack")
-    ctor = calls(f, "FFCDHKey")
-    if len(pows) != 1 or len(ups) != 1 or len(ctor) != 1:
-        raise AnalysisError("compute_public_key: DH branch changed")
-    a = [unparse(x) for x in pows[0].args]
-    want = ["dh_pub_key.generator", "int.from_bytes(private_key, byteorder='big')", "dh_pub_key.field_order"]
-    chk.ob("O2", Site.of(f, pows[0]), a == want and unparse(ups[0].args[0]) == "peer_public_key", "public value = g ** x mod p in the peer's group" if a == want else f"pow arguments are {a}, expected {want}")
-    ca = [unparse(x) for x in ctor[0].args] + [f"{k.arg}={unparse(k.value)}" for k in ctor[0].keywords]
-    wantc = ["dh_pub_key.key_length", "dh_pub_key.field_order", "dh_pub_key.generator", "my_pub_key"]
-    d = rd.single_def("my_pub_key", ctor[0])
-    okc = ca == wantc and d is not None and d.value is pows[0]
-    chk.ob("O3", Site.of(f, ctor[0]), okc, "our key blob repeats the peer's key_length, p and g: both sides pack the shared secret at the same width" if okc else f"our FFCDHKey is built from {ca}, expected {wantc} (a different key_length makes the two sides pack the shared secret at different widths)")
-    eu = calls(f, "ECDHKey.unpack")
-    ec = calls(f, "ECDHKey")
-    dp = calls(f, "ec.derive_private_key")
-    ok = len(eu) == 1 and unparse(eu[0].args[0]) == "peer_public_key" and len(dp) == 1 and [unparse(x) for x in dp[0].args] == ["int.from_bytes(private_key, byteorder='big')", "curve"]
-    chk.ob("O2", Site.of(f, dp[0] if dp else None, None if dp else "ECDH private key"), ok, "ECDH public key derived from the same private scalar on the peer's curve")
-    cur = rd.single_def("curve", dp[0]) if dp else None
-    chk.ob("O2", Site.of(f, construct="ECDH curve"), cur is not None and cur.value is not None and unparse(cur.value) == "ecdh_pub_key.curve_and_hash[0]", "curve = the peer key's curve")
-    ca = [unparse(x) for x in ec[0].args] if len(ec) == 1 else []
-    okc = ca == ["ecdh_pub_key.curve_name", "ecdh_pub_key.key_length", "my_ecdh_pub_key.x", "my_ecdh_pub_key.y"]
-    chk.ob("O3", Site.of(f, ec[0] if ec else None, None if ec else "ECDHKey"), okc, "our ECDH key blob repeats the peer's curve and key_length" if okc else f"our ECDHKey is built from {ca}")
-    rets = [n for n in body_nodes(f.node) if isinstance(n, ast.Return)]
-    okr = len(rets) == 2 and all(isinstance(r.value, ast.Call) and unparse(r.value.func).endswith(".pack") for r in rets)
-    chk.ob("O2", Site.of(f, construct="returns packed key blobs"), okr, "returns the packed key")
+    summ = Summary(f, ["secret_algorithm", "secret_parameters", "private_key", "peer_public_key"])
+    br = _algo_paths(f, summ)
+    chk.ob("O2", Site.of(f, construct="algorithm switch"), bool(br["DH"]) and bool(br["ECDH"]) and not br["other"], "DH / ECDH_P* / otherwise NotImplementedError")
+    for ps in br["DH"]:
+        run_recipe(repo, chk, "O2", f, ps, [
+            S("K", "FFCDHKey.unpack", {"data": "peer_public_key"}),
+            S("P", "pow", {"base": "K.generator", "exp": BIG, "mod": "K.field_order"}, params=["base", "exp", "mod"], why="public value = g ** x mod p in the peer's group, with the same unreduced exponent compute_kek uses"),
+            S("M", "FFCDHKey", {"key_length": "K.key_length", "field_order": "K.field_order", "generator": "K.generator", "public_key": "P"}, why="our key blob repeats the peer's key_length, p and g: both sides pack the shared secret at the same width"),
+        ], "compute_public_key DH", ret="M.pack()")
+    for ps in br["ECDH"]:
+        run_recipe(repo, chk, "O2", f, ps, [
+            S("E", "ECDHKey.unpack", {"data": "peer_public_key"}),
+            S("D", "derive_private_key", {"private_value": BIG, "curve": "E.curve_and_hash[0]"}, params=["private_value", "curve"], why="ECDH public key derived from the same private scalar on the peer's curve"),
+            S("Q", "public_numbers", recv="D.public_key()"),
+            S("M", "ECDHKey", {"curve_name": "E.curve_name", "key_length": "E.key_length", "x": "Q.x", "y": "Q.y"}, why="our ECDH key blob repeats the peer's curve and key_length"),
+        ], "compute_public_key ECDH", ret="M.pack()")
 
 
 def kdf_concat(repo: Repo, chk: Check) -> None:
     f = repo.func("_crypto.kdf_concat")
     chk.analysed(f)
-    j = [n for n in body_nodes(f.node) if isinstance(n, ast.Assign) and unparse(n.targets[0]) == "otherinfo"]
-    ok = len(j) == 1 and unparse(j[0].value) == "b''.join([algorithm_id, party_uinfo, party_vinfo])"
-    chk.ob("O2", Site.of(f, j[0] if j else None, None if j else "otherinfo"), ok, "otherinfo = AlgorithmID || PartyUInfo || PartyVInfo" if ok else f"otherinfo is {unparse(j[0].value) if j else '?'}")
-    c = calls(f, "ConcatKDFHash")
-    kws = {k.arg: unparse(k.value) for k in c[0].keywords if k.arg} if len(c) == 1 else {}
-    ok = len(c) == 1 and [unparse(a) for a in c[0].args] == ["algorithm"] and kws == {"length": "length", "otherinfo": "otherinfo"}
-    chk.ob("O2", Site.of(f, c[0] if c else None, None if c else "ConcatKDFHash"), ok, "ConcatKDFHash(algorithm, length, otherinfo)")
-    d = [n for n in body_nodes(f.node) if isinstance(n, ast.Call) and isinstance(n.func, ast.Attribute) and n.func.attr == "derive"]
-    chk.ob("O2", Site.of(f, d[0] if d else None, None if d else "derive"), len(d) == 1 and unparse(d[0].args[0]) == "shared_secret", "derives from the shared secret")
+    summ = Summary(f, ["algorithm", "shared_secret", "algorithm_id", "party_uinfo", "party_vinfo", "length"])
+    for ps in summ.returning():
+        run_recipe(repo, chk, "O2", f, ps, [
+            S("C", "ConcatKDFHash", {"algorithm": "algorithm", "length": "length", "otherinfo": "b''.join([algorithm_id, party_uinfo, party_vinfo])"}, params=["algorithm", "length", "otherinfo"], why="otherinfo = AlgorithmID || PartyUInfo || PartyVInfo"),
+            S("D", "derive", {"key_material": "shared_secret"}, params=["key_material"], recv="C", why="derives from the shared secret"),
+        ], "kdf_concat", ret="D")
+
+
+from .recipe import S, run_recipe  # noqa: E402
+from .util import ev_args  # noqa: E402
